@@ -1,5 +1,4 @@
 import Cvss.Proofs.Pool
-import Cvss.Model.SrcTie
 /-!
 # C14 — independence from history, interleaving, aliasing   (the provable part)
 
@@ -15,8 +14,8 @@ a copy of an object is independent of the original.*
    package `unsafe` are exactly what the models assume: packages 3.0, 3.1, 4.0 have **no** shared mutable state
    (only error sentinels and tables that no function assigns to, indexes-and-assigns, or takes the address of);
    package 2.0 has exactly one: `splitPool`, touched only by `ParseVector` through `Get` and `Put`; each package
-   uses `unsafe` exactly once, in `Vector`. `C14.pool_model_src_tie`: `ParseVector` and `split` of v2.0 still
-   have the source text the pool model was written against.
+   uses `unsafe` exactly once, in `Vector`. That the pool model describes `ParseVector` and `split` of v2.0 as they are now is
+   `Props/C14b.lean` (simulation of the regenerated loop bodies).
 2. **The pool is invisible to one call** (`C14.split14With_spec`, `C14.parse20With_indep`,
    `C14.parse20With_eq_parse20`, `C14.stale_slots_untouched`): `split` writes slots `0..ei` only, `ei ≤ 13`, the
    parser reads slots `0..ei` only; with any 14 stale strings in the buffer the result is `Model.parse20 s`.
@@ -83,13 +82,6 @@ theorem pkg_vars :
     GenV40.pkg_vars = ["ErrInvalidCVSSHeader:error", "ErrInvalidMetricOrder:error", "ErrInvalidMetricValue:error",
       "ErrOutOfBoundsScore:error", "ErrTooShortVector:error", "highestSeverityVectors:[][][]int",
       "highestSeverityVectorsEQ3EQ6:[][][]int", "order:[][]string", "sevIdx:[][]uint8"] := by decide
-
-/-- the hand-written pool model describes `ParseVector` and `split` as they are in the source now
-    (hash tie; superseded by the proofs of `Cvss/Props/C14b.lean`, which show that each `tick` of the machine is one
-    application of the regenerated loop bodies `GenP20.split_for1` / `GenP20.ParseVector_range1`) -/
-theorem pool_model_src_tie :
-    GenV20.srchash_ParseVector = "6ba832cb7d7b2587" ∧ GenV20.srchash_split = "878dcaa8ae6b288d" :=
-  Model.v20_src_tie
 
 /-! ## 2. one call: stale slots are never read, `split` never writes past slot 13 -/
 
